@@ -102,6 +102,12 @@ void vh_core_dump_req(FILE *f, struct iauth_request *r)
     VH_JS(f, "host", r->hostname); VH_JS(f, "cliuser", r->cli_username); VH_JS(f, "authuser", r->auth_username);
     VH_JS(f, "nick", r->nickname); VH_JS(f, "real", r->realname); VH_JS(f, "acct", r->account);
     VH_JS(f, "class", r->class); VH_JS(f, "addr", r->text_addr);
+    {
+        /* the routing tag as the daemon itself renders it (the harness echoes it back instead of assuming a format) */
+        char tag[64];
+        iauth_routing(r, tag, sizeof(tag));
+        VH_JS(f, "tag", tag);
+    }
     fputs(",\"raddr\":\"", f);
     for (k = 0; k < 16; ++k) fprintf(f, "%02x", r->remote_addr.in6_8[k]);
     fputs("\",\"laddr\":\"", f);
